@@ -305,7 +305,8 @@ class Frames:
         if k == "sub" and fr[2][0] in ("list", "bin"):
             names = self._names_of(fr[2])
             if names is not None:
-                return any(n == name for n in names) or any(n[0] not in ("const", "fstr") for n in names)
+                # ('keys', aggregate) entries are the geographic grouping keys: never a value column
+                return any(n == name for n in names) or any(n[0] not in ("const", "fstr", "keys") for n in names)
             return True
         if k == "setitem":
             return fr[2] == name or self.has_col(fr[1], name)
@@ -398,3 +399,74 @@ def strip(v):
     while v[0] in ("nullable", "fill0", "rowsel"):
         v = v[1]
     return v
+
+
+# ---------------------------------------------------------------------------------------------
+def signature(fr, flags, notes=None):
+    """Row signature of an aggregate table: (universe, order, index)
+    universe: frozenset of ('G', base_frame) group sources (union) or ('inter', a, b) / ('unknown', why)
+    order   : 'sorted' (ascending by the grouping / merge keys), 'left', 'unknown'
+    index   : 'range' (0..n-1) or 'unknown'
+    flags   : cond-term -> bool for phi conditions."""
+    k = fr[0]
+    if k == "phi":
+        if fr[1] not in flags:
+            raise AnalysisError(f"undecided condition in row signature: {ir.show(fr[1], maxdepth=3)}")
+        return signature(fr[2] if flags[fr[1]] else fr[3], flags, notes)
+    if k == "setitem":
+        return signature(fr[1], flags, notes)
+    if k == "sub":
+        if fr[2][0] in ("list", "bin", "const", "fstr"):
+            return signature(fr[1], flags, notes)  # column selection
+        u, o, i = signature(fr[1], flags, notes)
+        return ("filtered", u, fr[2]), o, "unknown"
+    if k == "attr":
+        return signature(fr[1], flags, notes)  # frame.col
+    if k == "call":
+        f = fr[1]
+        if f[0] == "attr":
+            m, recv = f[2], f[1]
+            if m == "reset_index":
+                kw = dict(fr[3])
+                if recv[0] == "call" and recv[1][0] == "attr" and recv[1][2] in ("sum", "size", "agg", "apply", "mean") and _is_groupby(recv[1][1]):
+                    src = recv[1][1][1][1]
+                    keys = recv[1][1][2][0]
+                    gkw = dict(recv[1][1][3])
+                    order = "sorted" if gkw.get("sort", ("const", True)) == ("const", True) else "unknown"
+                    return frozenset([("G", src, keys)]), order, "range"
+                u, o, i = signature(recv, flags, notes)
+                return u, o, "range"
+            if m in ("rename", "fillna", "assign", "drop", "copy", "astype", "round"):
+                return signature(recv, flags, notes)
+            if m == "sort_values":
+                u, o, i = signature(recv, flags, notes)
+                by = fr[2][0] if fr[2] else dict(fr[3]).get("by")
+                asc = dict(fr[3]).get("ascending", ("const", True))
+                by_keys = by is not None and by[0] == "param"  # the aggregate key list itself
+                return u, ("sorted" if asc == ("const", True) and by_keys else f"sorted by {ir.show(by, maxdepth=2) if by else '?'}"
+                           + ("" if asc == ("const", True) else " descending")), "unknown"
+            if m == "merge":
+                lu, lo, li = signature(recv, flags, notes)
+                ru, ro, ri = signature(fr[2][0], flags, notes)
+                how = dict(fr[3]).get("how", ("const", "inner"))[1]
+                if how == "outer":
+                    uni = _union(lu, ru)
+                    return uni, "sorted", "range"
+                if how == "left":
+                    return lu, lo, "range"
+                if how == "right":
+                    return ru, ro, "range"
+                if how == "cross":
+                    return lu, lo, "range"
+                return ("inter", lu, ru), lo, "range"
+    return ("unknown", ir.show(fr, maxdepth=2)), "unknown", "unknown"
+
+
+def _is_groupby(t):
+    return t[0] == "call" and t[1][0] == "attr" and t[1][2] == "groupby"
+
+
+def _union(a, b):
+    if isinstance(a, frozenset) and isinstance(b, frozenset):
+        return a | b
+    return ("union", a, b)
